@@ -75,6 +75,15 @@ class Replayer:
                 self.dbobj = ReferenceDatabase.load_from_dir(self.db)
                 self.session = self.dbobj.session
                 return 'ok', ''
+            if c in ('lib_other_rw_reader', 'lib_other_ro_reader'):
+                from gambit.db.sqla import file_sessionmaker
+                import glob as _g
+                gdb = [f for f in _g.glob(os.path.join(self.db, '*')) if f.endswith(('.gdb', '.db'))][0]
+                maker = file_sessionmaker(gdb, readonly=(c == 'lib_other_ro_reader'))
+                s2 = maker()
+                s2.query(Genome).count()
+                s2.close()
+                return 'ok', ''
             s = self.session
             if c == 'lib_edit':
                 t = s.query(Taxon).first()
@@ -178,21 +187,16 @@ def run(ctx):
     res = tlc.run_tlc('DbWorld', 'Gen_DbWorld.cfg', workers=1, timeout=1500, extra=['-simulate', f'num={num}', '-depth', '9', '-seed', str(ctx.seed % 100000)])
     hists = list({core.canon(h): h for h in res.printed if isinstance(h, list) and h and isinstance(h[0], dict) and 'cmd' in h[0]}.values())
     # plus hand-picked library-heavy histories every run must include (still judged against the generated expectations' rules)
-    must = [['lib_load', 'lib_delete', 'lib_flush', 'lib_begin_block', 'lib_query', 'lib_close'],
+    must = [['lib_other_rw_reader', 'lib_load', 'lib_edit', 'lib_flush', 'lib_commit', 'lib_query', 'lib_close'],
+            ['lib_other_ro_reader', 'lib_other_rw_reader', 'lib_load', 'lib_delete', 'lib_flush', 'lib_begin_block', 'lib_close', 'lib_load', 'lib_add', 'lib_commit'],
+            ['lib_load', 'lib_delete', 'lib_flush', 'lib_begin_block', 'lib_query', 'lib_close'],
             ['lib_load', 'lib_edit', 'lib_flush', 'lib_commit', 'lib_query', 'lib_rollback', 'lib_read_sigs', 'lib_close'],
             ['lib_load', 'lib_add', 'lib_query', 'lib_commit', 'lib_begin_block', 'lib_close', 'cli_query'],
             ['lib_load', 'lib_delete', 'lib_query', 'lib_begin_block', 'lib_close', 'cli_siginfo_db'],
             ['cli_query', 'cli_query_missing_file', 'cli_dist_usedb', 'cli_dist_bad_params', 'cli_query_sigs', 'cli_query_foreign_sigs', 'cli_siginfo_db_ids', 'cli_create_dbparams'],
             ['cli_query_strict_json', 'cli_tree', 'lib_load', 'lib_read_sigs', 'cli_query', 'lib_edit', 'lib_flush', 'lib_close']]
     for cmds in must:
-        gen = tlc.run_tlc('DbWorld', 'Gen_DbWorld.cfg', workers=1, timeout=300, overrides=dict(MaxDepth=len(cmds)),
-                          env=dict(FORCED=','.join(cmds)), extra=['-simulate', 'num=400', '-depth', str(len(cmds) + 1), '-seed', '1'])
-        # pick the generated history that equals the wanted command sequence (expectations then come from TLC)
-        hit = [h for h in gen.printed if isinstance(h, list) and [s['cmd'] for s in h] == cmds]
-        if hit:
-            hists.append(hit[0])
-        else:
-            hists.append(expect_from_model(cmds))
+        hists.append([dict(cmd=c) for c in cmds])      # judged step by step by TLC (Judge_C18) like the generated ones
     tmp = tlc.mktmp('c18-')
     try:
         envs = prepare(tmp, ctx.seed)
